@@ -281,6 +281,8 @@ class Analyzer(object):
             for t in st.targets:
                 for x in (t.elts if isinstance(t, ast.Tuple) else [t]):
                     if isinstance(x, (ast.Attribute, ast.Subscript)):
+                        # a store through a possibly-None base
+                        self.deref(x.value, x, facts)
                         self.expr(x.value, facts)
                     self.kill(facts, x)
             if len(st.targets) == 1 and is_ref(st.targets[0]):
